@@ -157,30 +157,36 @@ def has_unbound(t):
     return False
 
 
-def decompose(n, pol, out):
-    """split a branch condition into atomic (node, polarity) facts"""
+def decompose(n, pol, out, resolve=None):
+    """split a branch condition into atomic (node, polarity) facts; resolve(ref_node)
+    may return the initialiser of a never-modified local (copy propagation, B.6)"""
     n = unwrap(n)
     if n is None:
         return
+    if resolve is not None and n.k == 'ref':
+        r = resolve(n)
+        if r is not None:
+            decompose(r, pol, out, resolve)
+            return
     if n.k == 'binop' and n.get('op') == '&&':
         if pol:
-            decompose(n.c[0], True, out)
-            decompose(n.c[1], True, out)
+            decompose(n.c[0], True, out, resolve)
+            decompose(n.c[1], True, out, resolve)
         else:
             out.append((n, pol))
         return
     if n.k == 'binop' and n.get('op') == '||':
         if not pol:
-            decompose(n.c[0], False, out)
-            decompose(n.c[1], False, out)
+            decompose(n.c[0], False, out, resolve)
+            decompose(n.c[1], False, out, resolve)
         else:
             out.append((n, pol))
         return
     if n.k == 'unop' and n.get('op') == '!':
-        decompose(n.c[0], not pol, out)
+        decompose(n.c[0], not pol, out, resolve)
         return
     if n.k == 'call' and n.get('op') == '!' and len(n.c) == 1:
-        decompose(n.c[0], not pol, out)
+        decompose(n.c[0], not pol, out, resolve)
         return
     if n.k == 'call' and n.get('member') and (n.callee or {}).get('kind') == 'conv' and (n.callee or {}).get('ret') == 'bool':
         # explicit operator bool: truthiness of the object itself
@@ -291,6 +297,31 @@ class Sem(object):
                 return True
         return False
 
+    def local_vars(self, fn):
+        key = ('vars', fn.usr)
+        if key not in self._mods:
+            self._mods[key] = {n.get('lid'): n for n in fn.walk() if n.k == 'var'}
+        return self._mods[key]
+
+    def resolver(self, fn):
+        """ref node -> initialiser node when the local is initialised once and never modified"""
+        vars_ = self.local_vars(fn)
+        mods = self.mods(fn)
+
+        def resolve(ref):
+            d = ref.decl
+            if d.get('kind') != 'local':
+                return None
+            lid = d.get('lid')
+            v = vars_.get(lid)
+            if v is None or not v.c or v.c[0] is None or mods.get(lid):
+                return None
+            t = (v.get('type') or '')
+            if t.replace('const ', '').strip() not in ('bool', 'auto', 'const bool'):
+                return None
+            return v.c[0]
+        return resolve
+
     # ---------------------------------------------------------- facts
     def facts_at(self, fn, node_id, depth=0):
         """set of (term, polarity) known to hold whenever node is evaluated:
@@ -319,7 +350,7 @@ class Sem(object):
             if cn is None:
                 continue
             tmp = []
-            decompose(cn, pol, tmp)
+            decompose(cn, pol, tmp, self.resolver(fn))
             for (an, ap) in tmp:
                 atoms.append((an, ap, cid))
         for an, ap, cid in atoms:
